@@ -243,7 +243,7 @@ class Independencies(object):
             Y = ind2.event2
             Z = ind2.event3
             Y_Z = ind1.event3
-            if Y < Y_Z and Z < Y_Z and Y.isdisjoint(Z):
+            if Y.isdisjoint(Z) and ((Y < Y_Z and Z < Y_Z) or (Y | Z) == Y_Z):
                 return [IndependenceAssertion(ind1.event1, ind1.event2 | Y, Z)]
             else:
                 return []
